@@ -83,6 +83,15 @@ REUSE = {"cfg": {"nv": False, "transp": False, "maxq": 5}, "events": [
     {"k": "commit"}]}
 
 
+# the same templated block built and compiled twice with different values (identical text)
+SAME_BLOCK = {"cfg": {"nv": False, "transp": False, "maxq": 5}, "events": [
+    {"k": "new"}, {"k": "flush"},
+    {"k": "rot", "h": 0, "axis": "Z", "n": {"t": "a"}, "d": 4}, {"k": "meas", "h": 0, "mode": "reg", "inplace": True},
+    {"k": "compile", "vals": {"a": 3}, "same_block": True}, {"k": "commit"},
+    {"k": "rot", "h": 0, "axis": "Z", "n": {"t": "a"}, "d": 4}, {"k": "meas", "h": 0, "mode": "reg", "inplace": True},
+    {"k": "compile", "vals": {"a": 200}, "same_block": True}, {"k": "commit"}]}
+
+
 def run(ctx):
     from harness import precompile as H
     res = Result()
@@ -167,6 +176,8 @@ def run(ctx):
         reused = any(st.get("more") for st in prog["events"])
         if reused:
             res.count("re-use: one compiled template instantiated several times")
+        if any(st.get("same_block") for st in prog["events"]):
+            res.count("re-use: the same block built and compiled again with new values")
         if any("partial" in st for st in prog["events"]):
             res.count("re-use: failed instantiate (missing argument) retried")
         req, idx = H.model_request(prog, P)
@@ -226,6 +237,8 @@ def run(ctx):
     res.samples.append({"prog": F7_WITNESS, "futures": P["futures"], "msgs": len(P["msgs"] or [])})
     P, D = one(INTERLEAVED, "tpl.corpus")
     P, D = one(REUSE, "tpl.corpus")
+    P, D = one(SAME_BLOCK, "tpl.corpus")
+    P, D = one(dict(SAME_BLOCK, cfg={"nv": True, "transp": True, "maxq": 3}), "tpl.corpus")
     res.samples.append({"prog": REUSE, "msgs": len(P["msgs"] or [])})
     res.samples.append({"prog": INTERLEAVED, "futures": P["futures"], "msgs": len(P["msgs"] or [])})
     n = 24000 if ctx.thorough else 1700
